@@ -66,6 +66,37 @@ pub fn const_val(i: Id) -> Option<f64> {
     match node(i) { Node::Const(b) => Some(f64::from_bits(b)), _ => None }
 }
 
+/// Numerical value of a GROUND term (constants combined by + - * / neg min max abs). Used only to decide
+/// comparisons between ground terms that are clearly apart (relative gap > 1e-9), so that constant
+/// computations of the real code (matrices from primaries, white points) do not fork the path search.
+pub fn ground_val(i: Id) -> Option<f64> {
+    fn go(i: Id, depth: u32) -> Option<f64> {
+        if depth > 200 { return None; }
+        use Node::*;
+        Some(match node(i) {
+            Const(b) => f64::from_bits(b),
+            Add(a, b) => go(a, depth + 1)? + go(b, depth + 1)?,
+            Sub(a, b) => go(a, depth + 1)? - go(b, depth + 1)?,
+            Mul(a, b) => go(a, depth + 1)? * go(b, depth + 1)?,
+            Div(a, b) => { let d = go(b, depth + 1)?; if d == 0.0 { return None; } go(a, depth + 1)? / d }
+            Neg(a) => -go(a, depth + 1)?,
+            Min(a, b) => go(a, depth + 1)?.min(go(b, depth + 1)?),
+            Max(a, b) => go(a, depth + 1)?.max(go(b, depth + 1)?),
+            Abs(a) => go(a, depth + 1)?.abs(),
+            _ => return None,
+        })
+    }
+    go(i, 0)
+}
+fn clearly(kind: u8, a: Id, b: Id) -> Option<bool> {
+    if const_val(a).is_some() && const_val(b).is_some() { return None; }
+    let (x, y) = (ground_val(a)?, ground_val(b)?);
+    if !x.is_finite() || !y.is_finite() { return None; }
+    let scale = x.abs().max(y.abs()).max(1e-300);
+    if (x - y).abs() <= 1e-9 * scale { return None; }
+    Some(match kind { 0 => x < y, 1 => x <= y, _ => false })
+}
+
 /// Decide a comparison in scalar mode: constants are evaluated, everything else follows the script
 /// (default: true) and is recorded in the trace as part of the path condition.
 pub fn decide(cond: Id) -> bool {
@@ -75,6 +106,12 @@ pub fn decide(cond: Id) -> bool {
         Node::Lt(a, b) => if let (Some(x), Some(y)) = (const_val(a), const_val(b)) { return x < y; },
         Node::Le(a, b) => if let (Some(x), Some(y)) = (const_val(a), const_val(b)) { return x <= y; },
         Node::Eq(a, b) => { if a == b { return true; } if let (Some(x), Some(y)) = (const_val(a), const_val(b)) { return x == y; } },
+        _ => {}
+    }
+    match node(cond) {
+        Node::Lt(a, b) => if let Some(v) = clearly(0, a, b) { return v; },
+        Node::Le(a, b) => if let Some(v) = clearly(1, a, b) { return v; },
+        Node::Eq(a, b) => if let Some(v) = clearly(2, a, b) { return v; },
         _ => {}
     }
     if let Some(v) = implied(cond) { return v; }
